@@ -7,7 +7,7 @@ from typing import Any, Dict, List, Optional, Set, Tuple
 
 from ..cfacts import CUnit
 from ..core import AnalysisError, Report
-from ..pyfacts import Repo, calls, dotted, norm, raise_guards, raised_class, walk_no_nested
+from ..pyfacts import Repo, inlined_statements, calls, dotted, norm, raise_guards, raised_class, walk_no_nested
 
 DM = 'flipjump/interpreter/io_devices/device_memory.py'
 SC = 'flipjump/interpreter/io_devices/ScreenIO.py'
@@ -18,21 +18,22 @@ RUNLIB = 'flipjump/stl/runlib.fj'
 def rule_adapters(rep: Report, repo: Repo) -> None:
     rep.rule('C19.ADAPTERS', 'both memory adapters mask written values to w bits and read never-written words as 0; the packed-byte '
              'helpers exist once, in the base class, on top of read_word/write_word', 5)
+    MASK = '(1 << self.memory_width) - 1'
     rr = repo.func(DM, 'ReaderDeviceMemory.read_word')
-    ret = [norm(r.value) for r in ast.walk(rr) if isinstance(r, ast.Return)]
-    rep.check(ret == ['self._reader.memory.get(word_address & (1 << self.memory_width) - 1, 0)'], 'C19.ADAPTERS', 'ReaderDeviceMemory.read_word', str(ret),
+    body = inlined_statements(rr)
+    rep.check(body == [f'return self._reader.memory.get(word_address & {MASK}, 0)'], 'C19.ADAPTERS', 'ReaderDeviceMemory.read_word', str(body),
               f'{DM}:{rr.lineno}', expected='dictionary read with default 0 at the masked address')
     rw = repo.func(DM, 'ReaderDeviceMemory.write_word')
-    body = [norm(s) for s in rw.body]
-    rep.check(body == ['word_mask = (1 << self.memory_width) - 1', 'self._reader.memory[word_address & word_mask] = value & word_mask'], 'C19.ADAPTERS',
-              'ReaderDeviceMemory.write_word', str(body), f'{DM}:{rw.lineno}')
+    body = inlined_statements(rw)
+    rep.check(body == [f'self._reader.memory[word_address & {MASK}] = value & {MASK}'], 'C19.ADAPTERS',
+              'ReaderDeviceMemory.write_word', str(body), f'{DM}:{rw.lineno}', expected='masked address, masked value')
     nw = repo.func(DM, 'NativeDeviceMemory.write_word')
-    body = [norm(s) for s in nw.body]
-    rep.check(body == ['self._core_memory.set_word(word_address, value & (1 << self.memory_width) - 1)'], 'C19.ADAPTERS', 'NativeDeviceMemory.write_word',
+    body = inlined_statements(nw)
+    rep.check(body == [f'self._core_memory.set_word(word_address, value & {MASK})'], 'C19.ADAPTERS', 'NativeDeviceMemory.write_word',
               str(body), f'{DM}:{nw.lineno}')
     nr = repo.func(DM, 'NativeDeviceMemory.read_word')
-    ret = [norm(r.value) for r in ast.walk(nr) if isinstance(r, ast.Return)]
-    rep.check(ret == ['int(self._core_memory.get_word(word_address))'], 'C19.ADAPTERS', 'NativeDeviceMemory.read_word', str(ret), f'{DM}:{nr.lineno}')
+    body = inlined_statements(nr)
+    rep.check(body == ['return int(self._core_memory.get_word(word_address))'], 'C19.ADAPTERS', 'NativeDeviceMemory.read_word', str(body), f'{DM}:{nr.lineno}')
     helpers = {'read_data_byte', 'write_data_byte', '_data_bit_offset', '_jump_word_address', '_require_byte_capable_width'}
     base = set(repo.methods(DM, 'DeviceMemory'))
     over = (set(repo.methods(DM, 'ReaderDeviceMemory')) | set(repo.methods(DM, 'NativeDeviceMemory'))) & helpers
